@@ -4,12 +4,21 @@
      tree  = Encode(schema, v)          alen = AnnouncedLength(schema, v)
      edits = every edit of the tree (TlvModelFamily.AllEdits) with the outcome of the scan
              machine on the edited tree: "same" (accepted, equal value), "reject", "other"
+     lives = for the assignments of EditAssign, the life LifeOf(schema, v) of an instance holding v
+             (TlvModelFamily / TlvModelLife): after each in-place change m the value v, AnnouncedLength,
+             Size and Encode the SAME instance must then show
    and writes them as JSON (IOEnv.VEC_OUT). harness/props/c08.py builds each class through the
    real metaclass from `decl`, encodes every v and compares.                                *)
 EXTENDS TlvModelFamily, Json, IOUtils
 
 Outcome(s, v, input) == LET r == RunScan(s, FALSE, input) IN
                         IF r.status = "reject" THEN "reject" ELSE IF r.out = v THEN "same" ELSE "other"
+LifeVec(s, v) ==
+  LET ms == LifeOf(s, v)
+      vs == Lives(s, v, ms)
+  IN [j \in 1 .. Len(ms) |-> LET L == Encode(s, vs[j]) IN
+        [m |-> ms[j], v |-> vs[j], alen |-> AnnouncedLength(s, vs[j]), size |-> SeqSize(L), tree |-> L,
+         ok |-> LifeOk(s, v, ms)]]
 VecOf(f) ==
   LET s  == SchemaOf(f)
       EA == EditAssign(s)
@@ -17,6 +26,7 @@ VecOf(f) ==
       vecs |-> {LET L == Encode(s, v) IN
                 [v |-> v, tree |-> L, alen |-> AnnouncedLength(s, v), size |-> SeqSize(L),
                  back |-> RunScan(s, FALSE, L).out,
+                 lives |-> IF v \in EA THEN LifeVec(s, v) ELSE <<>>,
                  edits |-> IF v \in EA
                            THEN {[e EXCEPT !.expect = Outcome(s, v, Apply(L, e))] : e \in AllEdits(s, FALSE, L)}
                            ELSE {}]
